@@ -209,6 +209,33 @@ def run(repo, tier):
             else:
                 raise AnalysisError('assemble: origin of {} is not understood: {}'.format(what, show_value(leaf)))
     rep.analysed['per-call tables traced'] = n_tables
+    # the pass that *defines* the labels only writes the caller's table: a decision taken on what the dict already holds (a
+    # membership test, a lookup) makes the outcome depend on entries left over from an earlier call with the same dict
+    definer = facts.funcs.get('resolve_labels')
+    if definer is None:
+        raise AnalysisError('anchor vanished: pass resolve_labels')
+    dparams = {a.arg for a in definer.args.posonlyargs + definer.args.args + definer.args.kwonlyargs}
+    written = {n.value.id for n in ast.walk(definer) if isinstance(n, ast.Subscript) and isinstance(n.ctx, ast.Store)
+               and isinstance(n.value, ast.Name) and n.value.id in dparams}
+    if not written:
+        raise AnalysisError('resolve_labels: the label table it fills is not a parameter written by item assignment')
+    for tbl in sorted(written):
+        reads = []
+        for n in ast.walk(definer):
+            if isinstance(n, ast.Compare) and any(isinstance(c, ast.Name) and c.id == tbl for c in n.comparators) and any(isinstance(o, (ast.In, ast.NotIn)) for o in n.ops):
+                reads.append(n)
+            elif isinstance(n, ast.Subscript) and isinstance(n.ctx, ast.Load) and isinstance(n.value, ast.Name) and n.value.id == tbl:
+                reads.append(n)
+            elif isinstance(n, ast.Call) and isinstance(n.func, ast.Attribute) and isinstance(n.func.value, ast.Name) and n.func.value.id == tbl \
+                    and n.func.attr in ('get', 'keys', 'values', 'items', 'pop', 'setdefault', '__contains__'):
+                reads.append(n)
+            elif isinstance(n, (ast.For, ast.comprehension)) and isinstance(n.iter, ast.Name) and n.iter.id == tbl:
+                reads.append(n)
+        rep.check(not reads, 'R16.7.leftovers', 'resolve_labels only writes the caller\'s `{}` table'.format(tbl),
+                  lambda reads=reads, tbl=tbl: Finding('R16.7.leftovers', 'resolve_labels', reads[0],
+                                                       'the pass that defines the labels consults what the caller\'s `{}` dict already holds ({}): assembling the same source again '
+                                                       'with the same dict - it still holds the labels of the first run - gives a different outcome'.format(tbl, unparse(reads[0])[:50]),
+                                                       line=reads[0].lineno))
     # module import does not depend on ambient inputs either
     mod_fn = ast.FunctionDef(name='<module>', args=ast.arguments(posonlyargs=[], args=[], kwonlyargs=[], kw_defaults=[], defaults=[]),
                              body=[s for s in repo.asm.body if not isinstance(s, (ast.FunctionDef, ast.ClassDef))], decorator_list=[])
